@@ -18,9 +18,19 @@ new <p> <o> <nsems>                                        a primitive made of n
 del <p> <o>                                                group o collected (owner: finalizers; copy: nothing)
 killnew <p>                                                SIGKILL between sem_open and REGISTER
 killfin <p> <o>                                            SIGKILL inside the finalizer of the (single-SemLock) group o:
-                                                           after `sem_unlink`, before UNREGISTER
+                                                           after `sem_unlink`, before UNREGISTER  (= killfin <p> <o> 1)
+killfin <p> <o> <k>                                        SIGKILL of p while it collects group o, after k clean-up primitives
+                                                           (sem_unlink / UNREGISTER, 2 per SemLock) completed; a group of
+                                                           copies runs no primitive: the copies are dropped, then p dies
+killexit <p> <k>                                           p leaves normally and is SIGKILLed inside its exit-time finalizers
+                                                           after k clean-up primitives
 spawn <p> <c> <loky|loky_init_main> <pairs> <file>         as spawn; c re-imports the main module, which registers
                                                            <file> at import time (a tracked operation of c)
+spawn <p> <c> loky_init_main <pairs> L<o>                  ... which creates a Lock (group o of c) at import time
+op / opsig ... <main|thread|pool>                          optional last word: the thread of p that does the operation
+                                                           (main thread, a fresh thread, a worker thread of a thread pool)
+pop <p> <op> <f1,f2,...>                                   k threads of p do the operation on k files at the same time
+pnew <p> <o1,o2,...> <nsems>                               k threads of p create one primitive each at the same time
 end
 ledger <clean|kill|broken|idle|dropped|unused|resized> <n> <m> <l0>   (m: new size / self-inflicted deaths; l0: lingering before)
 ```
@@ -40,6 +50,11 @@ def D.step (d : D) (e : Ev) : D :=
   match LokyModel.TrackerTree.step d.s e with
   | some s' => { d with s := s' }
   | none => { d with bad := true }
+
+def D.steps (d : D) (es : List Ev) : D := es.foldl D.step d
+
+/-- actions of threads: the thread is carried by the history, `step` does not look at it -/
+def D.stepsT (d : D) (acts : List TAct) : D := acts.foldl (fun d a => d.step a.ev) d
 
 /-- trackers finish their start-up and sweep when their pipe has no writer left -/
 def settleOnce (s : State) : State :=
@@ -105,6 +120,14 @@ def parsePairs (s : String) : Option (List (Nat × Nat)) :=
       | _, _ => none
     | _ => none)
 
+def parseThread : String → Option Nat
+  | "main" => some 0
+  | "thread" => some 1
+  | "pool" => some 2
+  | _ => none
+
+def parseNats (s : String) : Option (List Nat) := (s.splitOn ",").mapM (·.toNat?)
+
 def warnedOf (d : D) (p : Nat) : Nat := (d.s.procs p).warned
 
 /-- finalizers of every registered owner object of `p` (what `util._exit_function` runs) -/
@@ -169,6 +192,22 @@ def handle (d : D) (ws : List String) : D × String :=
       (d, observe d (d.s.procs p).trk (d.s.procs c).trk (warnedOf d p - w0))
     | _, _, _ => (d, "bad-op")
   | ["spawn", p, c, m, pairs, f] =>
+    if f.startsWith "L" then
+      match p.toNat?, c.toNat?, parsePairs pairs, (f.drop 1).toNat? with
+      | some p, some c, some prs, some o =>
+        if m != "loky_init_main" then (d, "bad-op") else
+        let w0 := warnedOf d p
+        let d := d.step (.spawn p c true)
+        let d := (d.step (.semOpen c (oid o 0))).step (.semRegister c (oid o 0))   -- `Lock()` at module level of the main script
+        let d := { d with groups := (o, 1) :: d.groups }
+        let d := prs.foldl (fun d pr =>
+          let k := groupSize d pr.1
+          let d := (List.range k).foldl (fun d i => d.step (.copy p (oid pr.1 i) c (oid pr.2 i))) d
+          { d with groups := (pr.2, k) :: d.groups }) d
+        let d := d.settle
+        (d, observe d (d.s.procs p).trk (d.s.procs c).trk (warnedOf d p - w0))
+      | _, _, _, _ => (d, "bad-op")
+    else
     match p.toNat?, c.toNat?, parsePairs pairs, f.toNat? with
     | some p, some c, some prs, some f =>
       if m != "loky_init_main" then (d, "bad-op") else
@@ -194,6 +233,39 @@ def handle (d : D) (ws : List String) : D × String :=
         let d := (d.step (.op p o n)).settle
         (d, observe d (d.s.procs p).trk none (warnedOf d p - w0))
       | none => (d, "bad-op")
+    | _, _, _ => (d, "bad-op")
+  | ["op", p, o, f, th] =>
+    match parseThread th with
+    | some _ => handle d ["op", p, o, f]                      -- the thread is not an input of the model
+    | none => (d, "bad-op")
+  | ["opsig", p, o, f, sg, th] =>
+    match parseThread th with
+    | some _ => handle d ["opsig", p, o, f, sg]
+    | none => (d, "bad-op")
+  | ["pop", p, o, fs] =>
+    match p.toNat?, parseOp o, parseNats fs with
+    | some p, some o, some fs =>
+      match fs.mapM (fileName d) with
+      | some ns =>
+        let w0 := warnedOf d p
+        let acts : List TAct := (List.range ns.length).zip ns |>.map (fun (i, n) => ⟨i + 1, .op p o n⟩)
+        let d := (d.stepsT acts).settle
+        (d, observe d (d.s.procs p).trk none (warnedOf d p - w0))
+      | none => (d, "bad-op")
+    | _, _, _ => (d, "bad-op")
+  | ["pnew", p, os, k] =>
+    match p.toNat?, parseNats os, k.toNat? with
+    | some p, some os, some k =>
+      if k > 8 then (d, "bad-op") else
+      let w0 := warnedOf d p
+      let ths := (List.range os.length).zip os
+      -- an interleaving: every thread has done its sem_open(s) before the first REGISTER is sent
+      let opens : List TAct := ths.flatMap (fun (i, o) => (List.range k).map (fun j => ⟨i + 1, .semOpen p (oid o j)⟩))
+      let regs : List TAct := ths.flatMap (fun (i, o) => (List.range k).map (fun j => ⟨i + 1, .semRegister p (oid o j)⟩))
+      let d := d.stepsT (opens ++ regs)
+      let d := { d with groups := os.map (fun o => (o, k)) ++ d.groups }
+      let d := d.settle
+      (d, observe d (d.s.procs p).trk none (warnedOf d p - w0))
     | _, _, _ => (d, "bad-op")
   | ["opsig", p, o, f, sg] =>
     match p.toNat?, parseOp o, f.toNat?, parseSig sg with
@@ -267,8 +339,29 @@ def handle (d : D) (ws : List String) : D × String :=
     match p.toNat?, o.toNat? with
     | some p, some o =>
       if groupSize d o != 1 then (d, "bad-op") else
-      let d := d.step (.finUnlink p (oid o 0))             -- `sem_unlink` done, the process dies before UNREGISTER
-      let d := (d.step (.exit p .crash)).settle
+      let d := (d.steps (killFin p [oid o 0] 1)).settle    -- `sem_unlink` done, the process dies before UNREGISTER
+      (d, observe d none none 0)
+    | _, _ => (d, "bad-op")
+  | ["killfin", p, o, k] =>
+    match p.toNat?, o.toNat?, k.toNat? with
+    | some p, some o, some k =>
+      let m := groupSize d o
+      if m == 0 then (d, "bad-op") else
+      let os := (List.range m).map (oid o)
+      if (d.s.objs (oid o 0)).ph == .copy then
+        -- copies have no finalizer: nothing is unlinked, nothing is sent
+        let d := ((d.steps (os.map (fun ob => Ev.dropCopy p ob))).step (.exit p .crash)).settle
+        (d, observe d none none 0)
+      else if k > 2 * m then (d, "bad-op") else
+      let d := (d.steps (killFin p os k)).settle
+      (d, observe d none none 0)
+    | _, _, _ => (d, "bad-op")
+  | ["killexit", p, k] =>
+    match p.toNat?, k.toNat? with
+    | some p, some k =>
+      let os := (List.range d.s.nObj).filter (fun o => (d.s.objs o).proc == p && (d.s.objs o).ph == .registered)
+      if k > 2 * os.length then (d, "bad-op") else
+      let d := (d.steps (killFin p os k)).settle
       (d, observe d none none 0)
     | _, _ => (d, "bad-op")
   | ["ledger", kind, n, m, l0] =>
